@@ -506,7 +506,9 @@ func c15Build(args []string) (*c15Case, bool) {
 		if !ok {
 			return nil, false
 		}
-		it := itertools.Product(c15Copy(d)...)
+		buf := c15Copy(d)
+		it := itertools.Product(buf...)
+		c15Scramble(buf) // the family is the one named at the call: the caller's slice may change afterwards
 		c.next, c.value = it.Next, func() string { return showInts(it.Value()) }
 		c.want = c15Strs(c15Product(d))
 	case "rpprod":
@@ -518,7 +520,9 @@ func c15Build(args []string) (*c15Case, bool) {
 		if !ok || !ok2 {
 			return nil, false
 		}
-		it := itertools.RestrictedPrefixProduct(f, c15Copy(d)...)
+		buf := c15Copy(d)
+		it := itertools.RestrictedPrefixProduct(f, buf...)
+		c15Scramble(buf)
 		c.next, c.value = it.Next, func() string { return showInts(it.Value()) }
 		for _, q := range c15Product(d) {
 			if c15AllPrefixes(q, f) {
@@ -837,4 +841,11 @@ func c15Gen(r *rand.Rand, tier string, emit func(string)) {
 
 func init() {
 	register(&Proto{Name: "it", Props: []string{"C15"}, Run: c15Run, Gen: c15Gen})
+}
+
+// c15Scramble overwrites a slice that was handed to a constructor (which documents that it keeps its own copy).
+func c15Scramble(x []int) {
+	for i := range x {
+		x[i] = x[i]/2 + 1 - x[i]%2
+	}
 }
